@@ -466,11 +466,11 @@ func c03RandM(r *Rng) c03M {
 		m.krs = PickS(r, []string{"_text", "_stext"})
 	}
 	if r.P(1, 30) {
-		m.size = PickU(r, []uint64{0, 1, math.MaxUint64, math.MaxUint64 - 0xffe, math.MaxUint64 - 0xfff, 1 << 63})
+		m.size = c03PickU(r, []uint64{0, 1, math.MaxUint64, math.MaxUint64 - 0xffe, math.MaxUint64 - 0xfff, 1 << 63})
 	}
 	return m
 }
-func PickU(r *Rng, l []uint64) uint64 { return l[r.Intn(len(l))] }
+func c03PickU(r *Rng, l []uint64) uint64 { return l[r.Intn(len(l))] }
 
 func c03RandL(r *Rng, pool *c03Pool, maxLines int) c03L {
 	l := c03L{m: -1, rel: uint64(r.Intn(6)) * 0x10, folded: r.P(1, 6)}
@@ -482,7 +482,7 @@ func c03RandL(r *Rng, pool *c03Pool, maxLines int) c03L {
 		l.lines = append(l.lines, c03Ln{f: r.Intn(len(pool.fs)), line: int64(r.Intn(3)), col: int64(r.Intn(3))})
 	}
 	if r.P(1, 40) {
-		l.rel = PickU(r, []uint64{math.MaxUint64, 1 << 63, math.MaxUint64 - 0x400000})
+		l.rel = c03PickU(r, []uint64{math.MaxUint64, 1 << 63, math.MaxUint64 - 0x400000})
 	}
 	return l
 }
@@ -1046,7 +1046,7 @@ func c03KeyCases(c *Ctx, n int) {
 	for i := 0; i < n; i++ {
 		s := &profile.Sample{}
 		for d := r.Intn(5); d > 0; d-- {
-			s.Location = append(s.Location, &profile.Location{ID: PickU(r, ids)})
+			s.Location = append(s.Location, &profile.Location{ID: c03PickU(r, ids)})
 		}
 		if r.P(2, 3) {
 			s.Label = map[string][]string{}
@@ -1093,16 +1093,16 @@ func c03LocKeyCases(c *Ctx, n int) {
 	nums := []int64{0, 1, -1, 9, 10, 15, 16, -16, 255, 256, -255, 1 << 40, math.MaxInt64, math.MinInt64, math.MinInt64 + 1, 0xabc, -0xabc}
 	for i := 0; i < n; i++ {
 		p := &profile.Profile{}
-		l := &profile.Location{ID: 1, Address: PickU(r, []uint64{0, 1, 0x1000, 0x400100, 1 << 63, math.MaxUint64}), IsFolded: r.P(1, 3)}
+		l := &profile.Location{ID: 1, Address: c03PickU(r, []uint64{0, 1, 0x1000, 0x400100, 1 << 63, math.MaxUint64}), IsFolded: r.P(1, 3)}
 		if r.P(2, 3) {
-			m := &profile.Mapping{ID: PickU(r, ids), Start: PickU(r, []uint64{0, 0x1000, 0x400000, 1 << 63, math.MaxUint64 - 5})}
+			m := &profile.Mapping{ID: c03PickU(r, ids), Start: c03PickU(r, []uint64{0, 0x1000, 0x400000, 1 << 63, math.MaxUint64 - 5})}
 			m.Limit = m.Start + 0x1000
 			l.Mapping = m
 			p.Mapping = []*profile.Mapping{m}
 		}
 		used := map[uint64]*profile.Function{}
 		for k := r.Intn(4); k > 0; k-- {
-			id := PickU(r, ids)
+			id := c03PickU(r, ids)
 			f := used[id]
 			if f == nil {
 				f = &profile.Function{ID: id, Name: "f"}
